@@ -139,6 +139,37 @@ NEEDS.update({
 })
 SRC_OVERRIDE.update({n: _r3src(n) for n in NEEDS if n.startswith("R3")})
 
+# round 4: agents got the list of all earlier ideas (about 100) and were asked for what had NOT been explored; ids R4g<n><A|B|C>
+NEEDS.update({
+ "R4g1A": ("C01", "projective == fast path when Z^2 == Z'^2 compares X, Y directly", "two representatives with opposite Z (e.g. 2P against 2(-P))"),
+ "R4g1B": ("C01", "add_assign skips the cross-scalings when self.z == other.z (Z3 formula then only exact for Z = 1)", "two distinct, non-opposite points sharing a Z other than 1"),
+ "R4g1C": ("C02", "wnaf_table asserts (2..22).contains(&window) - exclusive upper bound", "window 22, the last documented size: panic"),
+ "R4g2A": ("C10", "Pippenger word-straddling branch casts the low part of a digit through u16", "window 19 at the word-1/word-0 boundary with bit 63 of the lowest limb set"),
+ "R4g2B": ("C10", "add_assign_mixed fast path for self.z == 1 returns before the equal-operand test", "P + P with Z = 1: a repeated point hitting the same bucket / table byte"),
+ "R4g2C": ("C10", "Pippenger replaces the top-bit assert by Fr::from_repr(..).is_ok() on every used scalar", "scalars in [r, 2^255): abort instead of a result"),
+ "R4g3A": ("C11", "pairing_multi_product prepares each distinct G2 element once; repeated elements store an index into the wrong list", "a repeated G2 element whose first occurrence comes after an earlier repetition, e.g. [A,A,B,C,B]"),
+ "R4g3B": ("C03", "G2 generator line coefficients cached in a OnceLock and recognised by x only", "Q = -g2 = [r-1]g2 is prepared as +g2"),
+ "R4g3C": ("C11", "pairing_product folds pairs with equal / opposite G2 operands into one pairing evaluated against q2", "pairing_product(p1, q, p2, -q) with p1 != p2"),
+ "R4g4A": ("C04", "G1Uncompressed dispatches on the three flag bits with an over-broad default arm", "compression and sort bits both set on uncompressed input: wrong error category"),
+ "R4g4B": ("C19", "Fr deserialize adds a fail-fast check on the top limb (>= instead of >)", "canonical scalars whose top limb equals that of r, e.g. r-1, r-2"),
+ "R4g4C": ("C19", "G1 deserialize uses take(48).read_to_end and checks the length after indexing buf[0]", "the empty stream: index-out-of-bounds panic"),
+ "R4g5A": ("C08", "inherent FrRepr::shl ('move whole limbs first') shifts by 64 - bits without guarding bits == 0", "shift amounts 64, 128, 192 (release: wrong value, debug: shift-overflow panic)"),
+ "R4g5B": ("C09", "Fq12::mul_assign fast path for self == one, where is_one() compares Montgomery limbs with integer 1", "left operand 2^-384 mod q embedded in Fq12"),
+ "R4g5C": ("C09", "Fq12::mul_assign fast path for a right operand in Fq6 multiplies self.c1 by other.c1", "right operand in Fq6 (including one) and a left operand with non-zero w-part"),
+ "R4g6A": ("C13", "XMD XOR step rewritten with chunks_exact(8) (remainder dropped)", "a hash whose digest length is not a multiple of 8 (SHA-224, SHA-512/224) and more than one block"),
+ "R4g6B": ("C14", "the final debug_assert gains '!p.is_zero() &&'", "debug builds panic whenever the correct result is the identity, e.g. map2(u, -u)"),
+ "R4g6C": ("C13", "XMD block index kept in a running u8 that is incremented after each use", "exactly 255 blocks: debug builds panic on 255u8 + 1"),
+ "R4g7A": ("C16", "eval_iso early exit tests the x NUMERATOR instead of the denominator", "the 22 rational preimages of the 3-torsion points (roots of XNUM)"),
+ "R4g7B": ("C16", "G1 isogeny_map returns its input when it already satisfies the target curve equation", "the rational points where E' and E intersect, x* = (4 - B')/A'"),
+ "R4g7C": ("C17", "clear_h debug_asserts the Jacobian curve equation on its input", "the canonical identity (0:1:0) in debug builds"),
+ "R4g8A": ("C20", "mul_assign fast path for the generator through a lazily built static table published before it is filled", "threads whose first generator multiplication in the process overlap"),
+ "R4g8B": ("C20", "hash_to_field keeps a thread-local memo keyed on (msg, dst, length) but not on the expander", "the same inputs hashed under another expander right afterwards on the same thread"),
+ "R4g8C": ("C20", "pairing_multi_product prepares blocks of 16 on worker threads and gathers them in completion order", "32 or more pairs: nondeterministic wrong results"),
+})
+def _r4src(n):
+    return "/tmp/mut4/%s/_out/%s" % (n[2:4], n[4])
+SRC_OVERRIDE.update({n: _r4src(n) for n in NEEDS if n.startswith("R4")})
+
 
 def first_line(path, pat):
     try:
@@ -176,7 +207,7 @@ def main():
                 detection[chk] = "not detected (OK)"
             else:
                 detection[chk] = "inconclusive: " + txt[:200]
-        meta = dict(id=name, property_attacked=(name[:3] if not name.startswith("R3") else "(any; organised by source file)"), property_broken=prop, change=what, needs_to_manifest=needs,
+        meta = dict(id=name, property_attacked=(name[:3] if not name.startswith("R") else "(any; organised by source file)"), property_broken=prop, change=what, needs_to_manifest=needs,
                     confirmed_by_me=dict(demo_passes_on_clean_tree=res.get("demo_clean"), demo_with_change=res.get("demo_mut"),
                                          existing_suite_with_change=res.get("suite"), builds_with_feature_verif=res.get("build_verif")),
                     kept=bool(confirmed),
